@@ -27,6 +27,7 @@ import (
 	"go/token"
 	"go/types"
 	"os"
+	"path/filepath"
 	"sort"
 	"strings"
 
@@ -154,6 +155,10 @@ func (ns *normState) planRenames() editSet {
 			var missing []canonField
 			for _, cf := range cfs {
 				if actual[cf.Name] == nil && !ast.IsExported(cf.Name) {
+					missing = append(missing, cf)
+				} else if actual[cf.Name] == nil && strings.HasSuffix(cf.Type, "."+cf.Name) {
+					// an embedded field (named after its type) turned into a private named field with explicit
+					// forwarding methods: the same slot under another name
 					missing = append(missing, cf)
 				}
 			}
@@ -465,14 +470,22 @@ func normalizeTree(repo string, extraEnv []string, overlay map[string][]byte) (m
 			if round == 0 {
 				return overlay, pkgs, nil, nil // the caller reports the type errors
 			}
+			if d := os.Getenv("FLAMECHECK_DUMP_FAILED"); d != "" {
+				for f, b := range cur {
+					_ = os.WriteFile(filepath.Join(d, strings.ReplaceAll(strings.TrimPrefix(f, "/"), "/", "_")), b, 0o644)
+				}
+			}
 			var msgs []string
 			for _, pk := range pkgs {
 				for _, e := range pk.Errors {
+					if strings.Contains(e.Error(), ": # ") {
+						continue
+					}
 					msgs = append(msgs, e.Error())
 				}
 			}
-			if len(msgs) > 2 {
-				msgs = msgs[:2]
+			if len(msgs) > 3 {
+				msgs = msgs[:3]
 			}
 			return goodOv, good, append(notes, "a normalisation step was dropped (its result does not type-check): "+strings.Join(msgs, "; ")), inlined
 		}
